@@ -14,6 +14,8 @@
 """This module contains a compiler that merges Gaussian operations into their symplectic forms,
 in a Gaussian and non-Gaussian circuit."""
 
+import networkx as nx
+
 import strawberryfields.program_utils as pu
 
 from .compiler import Compiler
@@ -171,8 +173,6 @@ class GaussianMerge(Compiler):
         self.DAG = pu.list_to_DAG(self.curr_seq)
 
         for op in list(self.DAG.nodes):
-            successors = list(self.DAG.successors(op))
-            predecessors = list(self.DAG.predecessors(op))
             # If operation is a Gaussian operation
             if get_op_name(op) in self.gaussian_ops:
                 merged_gaussian_ops = self.get_valid_gaussian_merge_ops(op)
@@ -189,27 +189,42 @@ class GaussianMerge(Compiler):
                     # where the value is a displacement gate added and its key is the qumode its operating upon.
                     displacement_mapping = self.add_displacement_gates(gaussian_transform)
 
-                    # If there are predecessors: Attach predecessor edges to new gaussian transform
-                    if predecessors:
-                        self.new_DAG.add_edges_from(
-                            [(pre, gaussian_transform[0]) for pre in predecessors]
-                        )
-
-                    # Add edges to all successor operations not merged
-                    self.add_non_gaussian_successor_gates(
-                        gaussian_transform, successors, displacement_mapping
-                    )
-
-                    # Add edges for all successor/predecessor operations of the merged operations
-                    self.add_gaussian_pre_and_succ_gates(
-                        gaussian_transform, merged_gaussian_ops, displacement_mapping
+                    # Every operation that preceded (followed) one of the merged operations has to
+                    # precede (follow) the operations that replace them.
+                    self.add_edges_around_merged_ops(
+                        gaussian_transform, [op] + merged_gaussian_ops, displacement_mapping
                     )
 
                     self.new_DAG.remove_nodes_from([op] + merged_gaussian_ops)
 
+                    if not nx.is_directed_acyclic_graph(self.new_DAG):
+                        # an operation that is not merged lies between the operations to be merged:
+                        # they cannot be made adjacent, so this merge is not valid
+                        continue
+
                     self.curr_seq = pu.DAG_to_list(self.new_DAG)
                     return True
         return False
+
+    def add_edges_around_merged_ops(self, gaussian_transform, merged_ops, displacement_mapping):
+        """
+        Updates the DAG by connecting the operations that replace ``merged_ops`` (a Gaussian transform
+        followed by displacement gates) to all predecessors and successors
+        of the merged operations.
+        """
+        merged = set(merged_ops)
+        predecessors = []
+        successors = []
+        for merged_op in merged_ops:
+            predecessors += [pre for pre in self.DAG.predecessors(merged_op) if pre not in merged]
+            successors += [post for post in self.DAG.successors(merged_op) if post not in merged]
+
+        self.new_DAG.add_edges_from((pre, gaussian_transform[0]) for pre in predecessors)
+        for post in successors:
+            self.new_DAG.add_edge(gaussian_transform[0], post)
+            for qumode in get_qumodes_operated_upon(post):
+                if qumode in displacement_mapping:
+                    self.new_DAG.add_edge(displacement_mapping[qumode], post)
 
     def recursive_d_gate_successors(self, gate):
         """
@@ -224,60 +239,6 @@ class GaussianMerge(Compiler):
                 if ret:
                     d_gates += ret
         return d_gates
-
-    def add_non_gaussian_successor_gates(
-        self, gaussian_transform, successors, displacement_mapping
-    ):
-        """
-        Updates the DAG by adding edges between new gaussian transform and non-gaussian operations
-        from original operations.
-        """
-        for successor_op in successors:
-            if get_op_name(successor_op) not in self.gaussian_ops:
-                # If there are no displacement gates.
-                # Add edges from it to successor gates if they act upon the same qumodes
-                if not displacement_mapping:
-                    # Add edge from gaussian transform to successor operation
-                    self.new_DAG.add_edge(gaussian_transform[0], successor_op)
-
-    def add_gaussian_pre_and_succ_gates(
-        self, gaussian_transform, merged_gaussian_ops, displacement_mapping
-    ):
-        """
-        Updated DAG by adding edges between gaussian transform/displacement operations to unmerged gaussian operations.
-        """
-        successor_operations_added = []
-        for gaussian_op in merged_gaussian_ops:
-            # Need special logic if there are displacement gates
-            if displacement_mapping:
-                for successor_op in self.DAG.successors(gaussian_op):
-                    placed_edge = False
-                    successor_op_qumodes = get_qumodes_operated_upon(successor_op)
-                    for qumode in successor_op_qumodes:
-                        # If displacement gate operates on the same qumodes as the non-gaussian operation then don't
-                        # add an edge. If register operated upon by successor operation has a displacement gate, add edge.
-                        if (
-                            qumode in displacement_mapping
-                            and qumode not in self.non_gaussian_qumodes_dependecy(successor_op)
-                        ):
-                            self.new_DAG.add_edge(displacement_mapping[qumode], successor_op)
-                            placed_edge = True
-
-                    if not placed_edge:
-                        self.new_DAG.add_edge(gaussian_transform[0], successor_op)
-                    successor_operations_added.append(successor_op)
-            else:
-                self.new_DAG.add_edges_from(
-                    [(gaussian_transform[-1], post) for post in self.DAG.successors(gaussian_op)]
-                )
-                successor_operations_added += self.DAG.successors(gaussian_op)
-
-        for gaussian_op in merged_gaussian_ops:
-            # Append Predecessors to Gaussian Transform
-            for predecessor in self.DAG.predecessors(gaussian_op):
-                # Make sure adding the edge wont make a cycle
-                if predecessor not in successor_operations_added:
-                    self.new_DAG.add_edge(predecessor, gaussian_transform[0])
 
     def add_displacement_gates(self, gaussian_transform):
         """
